@@ -1644,23 +1644,25 @@ impl Analyzable for Expression
 			{
 				let contextual_type = typer.contextual_type.take();
 				typer.contextual_type = right.value_type().or(contextual_type);
-				let left = left.analyze(typer);
+				// (The operands are boxed at once: this function is recursive
+				// and its stack frame decides how deeply expressions can nest.)
+				let left = Box::new(left.analyze(typer));
 				typer.contextual_type = left.value_type();
-				let right = right.analyze(typer);
+				let right = Box::new(right.analyze(typer));
 				// An operand that is still untyped takes the type of the other operand.
 				let left = match (left.value_type(), right.value_type())
 				{
 					(None, Some(Ok(vt))) =>
 					{
 						typer.contextual_type = Some(Ok(vt));
-						left.analyze(typer)
+						Box::new(left.analyze(typer))
 					}
 					_ => left,
 				};
 				Expression::Binary {
 					op,
-					left: Box::new(left),
-					right: Box::new(right),
+					left,
+					right,
 					location,
 					location_of_op,
 				}
